@@ -3,7 +3,7 @@ from typing import Any, Protocol
 import httpx
 
 from .auth.base import BaseAuth, set_header
-from .exceptions import HTTPError
+from .exceptions import ClientError, HTTPError, ServerError
 
 
 class HttpTransport(Protocol):
@@ -207,7 +207,14 @@ class HttpxTransport:
 
         response = await self._client.request(method, url, **request_args)
         if response.status_code < 200 or response.status_code >= 300:
-            raise HTTPError(status_code=response.status_code, message=response.text, response=response)
+            # 4xx -> ClientError, 5xx -> ServerError (both are HTTPError), so that the documented
+            # `except ClientError` / `except ServerError` handlers fire for errors raised by the transport
+            error_class: type[HTTPError] = HTTPError
+            if 400 <= response.status_code < 500:
+                error_class = ClientError
+            elif 500 <= response.status_code < 600:
+                error_class = ServerError
+            raise error_class(status_code=response.status_code, message=response.text, response=response)
         return response
 
     async def close(self) -> None:
